@@ -540,7 +540,7 @@ pub fn mode_number_sweep(ctx: &Ctx, rep: &mut Report, sys: &LockStep) {
         .filter_map(|&n| {
             for (set, seed) in [(true, &seed_a), (false, &seed_a), (true, &seed_b), (false, &seed_b)] {
                 let r = crate::engine::guarded(|| {
-                    let mut st = LSt { vt: cfg.build(), model: RefTerm::new(cfg.cols, cfg.rows), dead: false, twin: None };
+                    let mut st = LSt { vt: cfg.build(), model: RefTerm::new(cfg.cols, cfg.rows), dead: false, twins: vec![] };
                     for cmd in seed.iter() {
                         if !matches!(lock_apply(&mut st, &Op::new(cmd.clone())), Outcome::Ok) {
                             return None; // the seed itself diverges: the BFS parts report that
